@@ -10,4 +10,10 @@ P123     == {1, 2, 3}
 P2       == {2}
 F12      == {1, 2}
 F2       == {2}
+P1       == {1}
+FNone    == {}
+\* targeted configuration for the pending-list hole after a reorg (MCTxPool_gap.cfg)
+BalAll2  == [a \in Accts |-> 2]
+BalAll1  == [a \in Accts |-> 1]
+BalSet21 == {BalAll2, BalAll1}
 =============================================================================
